@@ -21,6 +21,7 @@ Arguments N.leb : simpl never.
 Arguments N.pow : simpl never.
 
 Ltac unfold_vocab :=
+  autounfold with bm_helpers in *;
   unfold and_m, or_m, not_m, rem_m, div_m, add_m, mul_m, sub_m, const_assert, assert_m,
     something_went_wrong, deref_as, from_raw_parts, slice_from_ref, read_unaligned,
     read_aligned, transmute_copy, aligned_for, size_of_val_slice, size_of, align_of in *.
